@@ -353,6 +353,7 @@ def _loop_common(P, st, spec, cond_fn, body_prefix=None, label=None):
     if inv is not None:
         P.assume(zbool(inv(P, view, pre)))
     v0 = variant(P, view, pre) if variant is not None else None
+    before = dict(fr.locals)
     if cond_fn(view):
         # one generic iteration
         exited = False
@@ -369,7 +370,7 @@ def _loop_common(P, st, spec, cond_fn, body_prefix=None, label=None):
             return  # continue after the loop with the state at `break`
         view2 = LocalsView(P, fr, pre)
         if spec.get("post_body"):
-            spec["post_body"](P, view2)
+            spec["post_body"](P, before, view2)
         if inv is not None:
             P.prove(f"{label}.inv.keep", inv(P, view2, pre))
         if variant is not None:
